@@ -7,7 +7,7 @@ from ..core import rule
 from ..index import AnalysisError, dotted, src, walk_no_nested, names_in
 from ..cfg import CFG, UNK
 from ..domains import check_pred, eval_pred, cmp_atoms, NotComparisonOnly
-from ..util import node_calls, own_expr, truthiness_uses, explore, outcomes_by_case, enclosing_loops, loop_targets, mk_atoms, stmt_of, ancestors, reach_conds
+from ..util import unevaluated_returns, node_calls, own_expr, truthiness_uses, explore, outcomes_by_case, enclosing_loops, loop_targets, mk_atoms, stmt_of, ancestors, reach_conds
 from .slots import COUNTTABLE, BASEDEMUX
 
 RS = 'read_should_be_counted'
@@ -37,8 +37,18 @@ def options(ctx):
     return out
 
 
-def arg_reads(fdef):
-    return {n.attr for n in walk_no_nested(fdef) if isinstance(n, ast.Attribute) and isinstance(n.value, ast.Name) and n.value.id == 'args'}
+def arg_reads(fdef, module=None, _seen=None):
+    """options read by the function or by a function of the same module it calls with `args` (transitively)"""
+    out = {n.attr for n in ast.walk(fdef) if isinstance(n, ast.Attribute) and isinstance(n.value, ast.Name) and n.value.id == 'args'}
+    if module is not None:
+        _seen = _seen if _seen is not None else {fdef.name}
+        tops = {d.name: d for d in module.tree.body if isinstance(d, ast.FunctionDef)}
+        for c in ast.walk(fdef):
+            if isinstance(c, ast.Call) and isinstance(c.func, ast.Name) and c.func.id in tops and c.func.id not in _seen \
+                    and any(isinstance(a, ast.Name) and a.id == 'args' for a in list(c.args) + [k.value for k in c.keywords]):
+                _seen.add(c.func.id)
+                out |= arg_reads(tops[c.func.id], module, _seen)
+    return out
 
 
 @rule('C11', 'C11-R1', 'every filter option of the parser is consulted by read_should_be_counted, every weighting option by assignReads')
@@ -46,7 +56,8 @@ def r1(ctx):
     opts = options(ctx)
     f = ctx.fn(COUNTTABLE, RS)
     g = ctx.fn(COUNTTABLE, AR)
-    used_f, used_g = arg_reads(f), arg_reads(g)
+    modc = ctx.ix.module(COUNTTABLE)
+    used_f, used_g = arg_reads(f, modc), arg_reads(g, modc)
     filt = [d for d, o in opts.items() if o['group'] == 'Filters'] + [d for d in ('r1only', 'r2only') if d in opts]
     ctx.need('C11-R1', len(filt), 8, 'filter options')
     for d in sorted(filt):
@@ -78,7 +89,8 @@ def r2(ctx):
     # decides the predicates) - stated on the outcome of the decision procedure, not on the position of `return True`
     outs = {o for c_, os_ in outcomes_by_case(f.body, [dict(BASE_CASE)], filter_atom, facts=dict(BASE_FACTS)) for o in os_}
     ok = outs == {('return', True)}
-    ctx.emit('C11-R2', ok, COUNTTABLE, f, f'{RS}: with all filters off a mapped, non-failed read is accepted on every path ({sorted(map(str, outs))})', key='reject-only')
+    ctx.emit('C11-R2', ok, COUNTTABLE, f, f'{RS}: with all filters off a mapped, non-failed read is accepted on every path ({sorted(map(str, outs))})', key='reject-only',
+             undecided=(not ok) and bool(unevaluated_returns(outs)))
     opts = options(ctx)
     numeric_none = {d for d, o in opts.items() if o['type'] in ('int', 'float') and o['default'] in (None, '<none>')}
     bad = []
@@ -176,9 +188,10 @@ def r4(ctx):
                     bad.append({'case': {k_: e[k_] for k_ in list(benv) + syms}, 'outcomes': sorted(map(str, outs)), 'documented_accept': want})
         n += 1
         ctx.counters['abstract_cases'] += ncase
+        und_ = bool(bad) and any('return' in o_ and not any(c_ in o_ for c_ in ("True)", "False)")) for b_ in bad for o_ in b_['outcomes'])
         ctx.emit('C11-R4', not bad, COUNTTABLE, f, f'{name}: over {ncase} cases the read is rejected iff the documented predicate holds' if not bad else
                  f'{name}: differs at {bad[0]["case"]}: outcomes {bad[0]["outcomes"]}, documented: {"accept" if bad[0]["documented_accept"] else "reject"}', key=f'predicate:{name}',
-                 witness=bad[0] if bad else None)
+                 witness=bad[0] if bad else None, undecided=und_)
     ctx.need('C11-R4', n, 8, 'filter predicates')
     ctx.exhaustive['C11-R4'] = True
 
